@@ -476,6 +476,38 @@ def lookups_stream(monitor, quick_n=300, thorough_n=8000):
                   opkind=lambda l: l.split()[0] + (":" + l.split("kind=")[1].split()[0] if "kind=" in l else ""))
 
 
+def gen_late_reaction_case(rng):
+    """completion callbacks that take a while (the virtual clock advances inside the callback) before they start a new
+    request or cancel: monitors only (the model's reactions are instantaneous)"""
+    ops = ["chan servers=10.0.0.1,10.0.0.2 flags=%d tries=2 timeout=2000 cache=%d%s" % (
+        rng.choice([0, 16]), rng.choice([0, 60, 3600]), " fdreuse=1" if rng.random() < 0.5 else "")]
+    ops.append("reaction idx=0 kind=%s name=%s type=1 tok=900 adv=%d" % (rng.choice(["send", "send", "cancel"]), rng.choice(NAMES),
+                                                                         rng.choice([1, 999, 1500, 2500, 61000])))
+    tok = 0
+    for _ in range(rng.randint(1, 4)):
+        tok += 1
+        ops.append("req tok=%d kind=%s name=%s type=1 react=R0" % (tok, rng.choice(["send", "query", "search"]), rng.choice(NAMES)))
+        r = rng.random()
+        if r < 0.7:
+            ops.append("reply tx=-1 kind=%s" % rng.choice(["noerror an=1 ttl=1", "noerror an=2 ttl=60,1", "nodata", "servfail", "nxdomain soa=1:1"]))
+            ops.append("procall")
+        else:
+            ops += ["adv 2000", "tick", "adv 4000", "tick"]
+    ops += ["cancel", "destroy"]
+    return ops
+
+
+def late_reaction_stream(monitor, quick_n=100, thorough_n=3000):
+    def gen(rng, tier):
+        return [gen_late_reaction_case(rng) for _ in range(quick_n if tier == "quick" else thorough_n)]
+
+    def mon(case, out):
+        return mon_common(case, out) + (monitor(case, out) if monitor else [])
+    return Stream("late-reaction", "h_sim", None, gen, monitor=mon,
+                  nontrivial=lambda c, o: any(" cb(" in (" " + l) for l in o),
+                  opkind=lambda l: l.split()[0] + (":" + l.split("kind=")[1].split()[0] if "kind=" in l else ""))
+
+
 def gen_storm_case(rng):
     """the same protocol-resend trigger again and again for one query: BADCOOKIE with ever-changing server cookies,
     truncation, FORMERR, SERVFAIL, duplicates of each - transmissions must stay within servers x tries + 5"""
